@@ -529,8 +529,8 @@ impl Part for Order {
     }
     fn rule(&self) -> String {
         "same generator with small steps; max |energy error| over a fixed integration time with 4, 8 and 16 steps; \
-         judged only in the asymptotic regime (1e-9 < error(4 steps) < 0.02): error(16 steps) <= error(4 steps)/6 \
-         (second order gives 1/16, first order 1/4); non-trivial = judged case"
+         judged only where the errors follow one power law (log2 ratios of successive halvings agree within 0.4, error(4 steps) < 0.02): \
+         observed order >= 1.5 (leapfrog 2, a first-order scheme 1); non-trivial = judged case"
             .into()
     }
     fn cases(&self, tier: Tier) -> usize {
@@ -559,16 +559,24 @@ impl Part for Order {
             o.skipped = Some("trajectory failed".into());
             return o;
         };
-        if !(e1 > 1e-9 && e1 < 0.02) || !(e2 <= e1) {
+        // Judged only where the three errors follow one power law (self-consistent convergence):
+        // p1 = log2(e1/e2) and p2 = log2(e2/e3) agree within 0.4. A first-order scheme then shows
+        // p = 1, the leapfrog p = 2.
+        if !(e1 > 1e-9 && e1 < 0.02 && e3 > 1e-13) {
+            o.skipped = Some("not in the asymptotic regime".into());
+            return o;
+        }
+        let (p1, p2) = ((e1 / e2).log2(), (e2 / e3).log2());
+        if !((p1 - p2).abs() <= 0.4) {
             o.skipped = Some("not in the asymptotic regime".into());
             return o;
         }
         o.label("judged");
         o.nontrivial(format!("{}/{}/{}/{}", kind_name(c.kind), c.trans.class(), c.dens.class(), c.dens.dim()));
-        if !(e3 <= e1 / 6.0 + 1e-12) {
+        if !((p1 + p2) / 2.0 >= 1.5) {
             o.set_fail(
                 format!("C02:order:{}", kind_name(c.kind)),
-                format!("max energy error {e1:e} (eps), {e2:e} (eps/2), {e3:e} (eps/4): not second order"),
+                format!("max energy error {e1:e} (eps), {e2:e} (eps/2), {e3:e} (eps/4): observed order {:.2}, not second order", (p1 + p2) / 2.0),
             );
         }
         o
